@@ -9,10 +9,12 @@ Open Scope N_scope.
 Section InstrInd.
   Variable P : instr -> Prop.
   Hypothesis Hrun : forall sg, P (IRun sg).
+  Hypothesis Hdecl : forall hs, P (IDecl hs).
   Hypothesis Hgate : forall root checks body swaps, Forall P body -> P (IGate root checks body swaps).
   Fixpoint instr_ind' (i : instr) : P i :=
     match i with
     | IRun sg => Hrun sg
+    | IDecl hs => Hdecl hs
     | IGate r c b s =>
         Hgate r c b s ((fix go (l : list instr) : Forall P l :=
                           match l with
@@ -49,14 +51,16 @@ Section Preserve.
   Hypothesis Rsg : forall ext sg w, R w (run_sg ext sg w).
   Hypothesis Rswap : forall w h, R w (swap_one w h).
   Hypothesis Roof : forall w b, R w (set_oof w b).
+  Hypothesis Rdecl : forall w h, R w (set_buf w (update h [] (w_buf w))).
 
   Lemma swap_all_R : forall hs w, R w (swap_all hs w).
   Proof. intros hs w. unfold swap_all. apply fold_left_R. intros. apply Rswap. Qed.
 
   Lemma exec_R : forall ext i w, R w (exec ext i w).
   Proof.
-    intros ext i. induction i as [sg | root checks body swaps IH] using instr_ind'; intros w.
+    intros ext i. induction i as [sg | hs | root checks body swaps IH] using instr_ind'; intros w.
     - cbn [exec]. apply Rsg.
+    - cbn [exec]. apply fold_left_R. intros. apply Rdecl.
     - cbn [exec].
       assert (Hbody : forall w, R w (swap_all swaps (fold_left (fun w i => exec ext i w) body w))).
       { intros w0. eapply Rtrans; [|apply swap_all_R].
@@ -137,9 +141,12 @@ Proof. intros; split; reflexivity. Qed.
 Lemma set_oof_tw : forall w b, same_tw w (set_oof w b).
 Proof. intros; split; reflexivity. Qed.
 
+Lemma decl_tw : forall w h, same_tw w (set_buf w (update h [] (w_buf w))).
+Proof. intros; split; reflexivity. Qed.
+
 Lemma body_tw : forall ext body w, same_tw w (fold_left (fun w i => exec ext i w) body w).
 Proof.
-  intros. apply (body_R same_tw same_tw_refl same_tw_trans run_sg_tw swap_one_tw set_oof_tw).
+  intros. apply (body_R same_tw same_tw_refl same_tw_trans run_sg_tw swap_one_tw set_oof_tw decl_tw).
 Qed.
 
 Lemma swap_all_tw : forall hs w, same_tw w (swap_all hs w).
@@ -452,3 +459,68 @@ Proof.
   destruct (body_tw ext (p_body p) w) as [H5 _]. fold (body_world p ext w) in H5. fold w1 in H5.
   rewrite H4, <- H5. reflexivity.
 Qed.
+
+(* ------------------------------------------------------------------ C26: loop gates *)
+
+Definition gate_cond (checks : list check) (w : world) : bool := existsb (check_b w) checks.
+
+Definition gate_body (ext : bufs) (body : list instr) (swaps : list N) (w : world) : world :=
+  swap_all swaps (fold_left (fun w i => exec ext i w) body w).
+
+Lemma exec_gate : forall ext root checks body swaps w,
+  exec ext (IGate root checks body swaps) w =
+  match checks with
+  | [] => gate_body ext body swaps w
+  | _ => if root then (if gate_cond checks w then gate_body ext body swaps w else w)
+         else while_gate loop_fuel (gate_cond checks) (gate_body ext body swaps) w
+  end.
+Proof. intros. destruct checks; reflexivity. Qed.
+
+(* a `while` gate stops exactly when its condition is false (or the fuel ran out, which is
+   reported: the real loop would not terminate within the bound) *)
+Lemma while_gate_stops : forall fuel cond body w,
+  cond (while_gate fuel cond body w) = false \/ w_oof (while_gate fuel cond body w) = true.
+Proof.
+  induction fuel as [|f IH]; intros cond body w; cbn [while_gate].
+  - destruct (cond w) eqn:E; [right; reflexivity | left; exact E].
+  - destruct (cond w) eqn:E; [apply IH | left; exact E].
+Qed.
+
+Fixpoint iter_n {A} (n : nat) (f : A -> A) (x : A) : A :=
+  match n with O => x | S k => iter_n k f (f x) end.
+
+(* ... after exactly as many iterations as the condition held *)
+Lemma while_gate_iter : forall n fuel cond body w,
+  (n <= fuel)%nat ->
+  (forall k, (k < n)%nat -> cond (iter_n k body w) = true) ->
+  cond (iter_n n body w) = false ->
+  while_gate fuel cond body w = iter_n n body w.
+Proof.
+  induction n as [|n IH]; intros fuel cond body w Hle Hk Hn.
+  - cbn [iter_n] in *. destruct fuel; cbn [while_gate]; rewrite Hn; reflexivity.
+  - destruct fuel as [|f]; [lia|]. cbn [while_gate iter_n].
+    pose proof (Hk 0%nat ltac:(lia)) as H0. cbn [iter_n] in H0. rewrite H0. apply IH; [lia | | exact Hn].
+    intros k Hlt. apply (Hk (S k)). lia.
+Qed.
+
+(* a root-level loop body runs at most once per tick: once if its gate is open (or it has no
+   gate), not at all otherwise *)
+Lemma root_gate_once : forall ext checks body swaps w,
+  exec ext (IGate true checks body swaps) w =
+  if match checks with [] => true | _ => gate_cond checks w end then gate_body ext body swaps w else w.
+Proof. intros. rewrite exec_gate. destruct checks; reflexivity. Qed.
+
+(* a nested loop with no gate check runs its body exactly once; otherwise it is the while loop *)
+Lemma nested_gate_while : forall ext c cs body swaps w,
+  exec ext (IGate false (c :: cs) body swaps) w =
+  while_gate loop_fuel (gate_cond (c :: cs)) (gate_body ext body swaps) w.
+Proof. intros. reflexivity. Qed.
+
+(* defer_tick inside a loop: the loop's swap at the end of every iteration makes what was pushed
+   during the iteration the back buffer of the next iteration -- one iteration later, exactly *)
+Lemma loop_defer_swap : forall ext body swaps w h,
+  NoDup swaps -> In h swaps ->
+  let w1 := fold_left (fun w i => exec ext i w) body w in
+  get h (w_back (gate_body ext body swaps w)) = get h (w_buf w1) /\
+  get h (w_buf (gate_body ext body swaps w)) = get h (w_back w1).
+Proof. intros ext body swaps w h ND Hin. unfold gate_body. apply swap_all_in; assumption. Qed.
